@@ -53,7 +53,7 @@ Qed.
    everything it held went into the final requests or was a package already reported *)
 Lemma flush_run_empties outs s o ra :
   snd ra < length (p_ahs s) ->
-  inactive (get_obj s (ah_app (get_ah s (snd ra)))) (p_now s) = false ->
+  flush_inactive (get_obj s (ah_app (get_ah s (snd ra)))) (p_now s) = false ->
   harvest_tags (ah_h (get_ah (fst (flush_run outs (s, o) ra)) (snd ra))) = [].
 Proof.
   intros Hi Hin. unfold flush_run. apply Nat.leb_gt in Hi. rewrite Hi. rewrite Hin.
